@@ -15,15 +15,15 @@ import (
 )
 
 type Program struct {
-	Pkgs     []*packages.Package
-	Prog     *ssa.Program
-	SSAPkgs  []*ssa.Package
-	Funcs    map[string]*ssa.Function // key -> function (all functions with bodies)
-	DirToPkg map[string]string
-	ByPath   map[string]*packages.Package
-	RepoDir  string
-	sums     *Summaries
-	repoQuals map[string]bool
+	Pkgs       []*packages.Package
+	Prog       *ssa.Program
+	SSAPkgs    []*ssa.Package
+	Funcs      map[string]*ssa.Function // key -> function (all functions with bodies)
+	DirToPkg   map[string]string
+	ByPath     map[string]*packages.Package
+	RepoDir    string
+	sums       *Summaries
+	repoQuals  map[string]bool
 	fieldCands map[fieldKey]*candSet
 	fnSet      map[*ssa.Function]bool
 }
